@@ -840,6 +840,8 @@ def correspond(ctx):
     M.correspond_model(ctx, st, pool)
     # ---- 7. /validate controllers
     api_validate(ctx, st, pool, rng, limit)
+    # margin of the watchdog: slowest call that did finish, as a fraction of its time limit
+    ctx.cov['slowest_finished_call_fraction_of_limit'] = round(st.get('max_fraction_of_limit', 0.0), 3)
 
 
 def seam(ctx, st, pool, rng):
